@@ -452,6 +452,15 @@ func (Engine) Generate(prop string, r *kit.Rand, tier string) *kit.Scenario[Conf
 				o.Count = r.Range(100, 130) // a burst that opens a log gap > 100
 			} else if o.Op == "announce" && r.Chance(0.06) {
 				o.Count = r.Range(55, 100) // ... or a long stretch of the log that a peer must still replay op by op
+			} else if o.Op == "announce" && r.Chance(0.06) {
+				// ... or the log crosses a multiple of 100 operations while peers are a few operations behind: a
+				// stretch just short of 100, some deliveries, a few more
+				o.Count = r.Range(94, 99)
+				sc.Ops = append(sc.Ops, o)
+				for k, nk := 0, r.Intn(30); k < nk; k++ {
+					sc.Ops = append(sc.Ops, Op{Op: "deliver", K: 0})
+				}
+				o = Op{Op: "announce", R: o.R, Prefix: kit.Pick(r, prefixes), Count: r.Range(2, 8)}
 			}
 			sc.Ops = append(sc.Ops, o)
 		case 8:
